@@ -10,7 +10,7 @@ before it is published.
 from ..core import Obligation, DISCHARGED, VIOLATION, load_table
 from ..facts import walk, strip_targs
 from ..substrate import AnalysisBroken
-from ..cfgutil import must_pass, blocks_calling, call_base, _strip_not
+from ..cfgutil import must_pass, blocks_calling, call_base, _strip_not, blocks_calling_deep, reaches_call
 from .C09 import root_var, same_obj
 from ..cursor import run_cursor
 
@@ -19,6 +19,25 @@ LEVEL = "other"
 
 def has_lit(tree, s):
     return any(n.get("k") == "lit" and n.get("s") == s for n in walk(tree))
+
+
+def fn_has_lit(fn, s):
+    return any(tree is not None and has_lit(tree, s) for b, kind, tree, e in fn.roots())
+
+
+def cond_tests_key(F, cond, key):
+    """the condition mentions the option key itself or calls a lambda / local helper whose body does"""
+    if has_lit(cond, key):
+        return True, any(n.get("k") == "call" and strip_targs(n.get("fn") or "").endswith("::attribute_type")
+                         for n in walk(cond))
+    for n in walk(cond):
+        if n.get("k") == "call" and not n.get("virt"):
+            for t in F.targets(n):
+                if fn_has_lit(t, key):
+                    keyed = any(x.get("k") == "call" and strip_targs(x.get("fn") or "").endswith("::attribute_type")
+                                for b, kind, tree, e in t.roots() if tree is not None for x in walk(tree))
+                    return True, keyed
+    return False, False
 
 
 def run(ctx, rep):
@@ -59,10 +78,11 @@ def run(ctx, rep):
     for fn in real:
         skip_blocks = []
         for b in fn.blocks.values():
-            if b.cond is not None and len(b.succ) == 2 and has_lit(b.cond, key):
+            if b.cond is not None and len(b.succ) == 2:
+                tests, keyed = cond_tests_key(F, b.cond, key)
+                if not tests:
+                    continue
                 tree, pos = _strip_not(b.cond, True)
-                keyed = any(n.get("k") == "call" and strip_targs(n.get("fn") or "").endswith("::attribute_type")
-                            for n in walk(b.cond))
                 skip_blocks.append((b, pos, keyed))
         if not skip_blocks:
             rep.add(Obligation("SIBLING-SKIP", fn.base, "reads the skip option", fn.loc, VIOLATION,
@@ -79,8 +99,8 @@ def run(ctx, rep):
             loops.sort(key=lambda l: len(l[1]))
             header = loops[0][0] if loops else None
             region = fn.reachable(start=skip_succ, removed_blocks={header} if header is not None else set())
-            copy_blocks = blocks_calling(fn, lambda n: call_base(n) == tab["copy_call"])
-            t_blocks = blocks_calling(fn, lambda n: call_base(n) in tcalls)
+            copy_blocks = blocks_calling_deep(F, fn, lambda n: call_base(n) == tab["copy_call"])
+            t_blocks = blocks_calling_deep(F, fn, lambda n: call_base(n) in tcalls)
             dom_copy = [cb for cb in copy_blocks if fn.edge_dominates((b.id, skip_succ), cb)]
             rep.add(Obligation("SIBLING-SKIP", fn.base, "skip path copies the portable attribute",
                                fn.site(b.tloc or ""), DISCHARGED if dom_copy else VIOLATION,
@@ -107,7 +127,8 @@ def run(ctx, rep):
             if tree is not None and has_lit(tree, key):
                 readers.add(fn.base)
     allowed = {f.base for f in real} | set(tab["option_writers"])
-    extra = sorted(readers - allowed)
+    extra = sorted(r for r in readers - allowed
+                   if not any(r.startswith(a + "(") or r.startswith(a + "::") for a in allowed))
     rep.add(Obligation("SIBLING-SKIP", "option key", "'%s' users" % key, "-",
                        VIOLATION if extra else DISCHARGED,
                        detail="only the transform-stage implementations and %s mention the key" % tab["option_writers"]
@@ -116,15 +137,32 @@ def run(ctx, rep):
     # transform data attached
     for t in tab["transfer"]:
         for fn in F.need(t["fn"]):
-            tb = blocks_calling(fn, lambda n: call_base(n) == tab["transfer_call"] and
-                                n.get("use") in ("cond", "ret", "init", "assign"))
+            def is_transfer(n):
+                return call_base(n) == tab["transfer_call"] and n.get("use") in ("cond", "ret", "init", "assign")
+            tb = blocks_calling(fn, is_transfer)
+            # the per-attribute work hoisted into a checked helper that itself must-passes the transfer
+            for n_, b_, rk_, ev_ in fn.calls():
+                if n_.get("k") == "call" and not n_.get("virt") and n_.get("use") in ("cond", "ret", "init", "assign"):
+                    for t_ in F.targets(n_):
+                        if t_.key != fn.key and "/draco/" in t_.file:
+                            tb2 = blocks_calling(t_, is_transfer)
+                            if tb2 and not must_pass(t_, tb2, delegate=lambda c_: call_base(c_) == tab["transfer_call"]):
+                                tb.add(b_)
             if t["mode"] == "mustpass":
                 bad = must_pass(fn, tb, delegate=lambda call: call_base(call) == tab["transfer_call"])
                 ok = bool(tb) and not bad
             else:
-                pub = blocks_calling(fn, lambda n: call_base(n).endswith("::push_back") and
-                                     isinstance(n.get("obj"), dict) and n["obj"].get("n") == t["publication_field"])
+                is_pub = lambda n: call_base(n).endswith("::push_back") and \
+                    isinstance(n.get("obj"), dict) and n["obj"].get("n") == t["publication_field"]
+                pub = blocks_calling(fn, is_pub)
                 ok = bool(tb) and bool(pub) and all(any(fn.block_dominates(x, p) for x in tb) for p in pub)
+                if not ok and tb and not pub:
+                    # publication moved into the same helper: inside it the transfer must dominate the push_back
+                    for n_, b_, rk_, ev_ in fn.calls():
+                        for t_ in (F.targets(n_) if n_.get("k") == "call" and not n_.get("virt") else []):
+                            tb2, pub2 = blocks_calling(t_, is_transfer), blocks_calling(t_, is_pub)
+                            if tb2 and pub2 and all(any(t_.block_dominates(x, p_) for x in tb2) for p_ in pub2):
+                                ok = True
             rep.add(Obligation("SIBLING-SKIP", fn.base, "transform data attached to the portable attribute",
                                fn.loc, DISCHARGED if ok else VIOLATION,
                                detail="checked TransferToAttribute %s" % (
@@ -196,7 +234,22 @@ def run(ctx, rep):
     for sc in tab["sibling_computations"]:
         sigs = {}
         for side in ("a", "b"):
-            fns = F.need(sc[side])
+            fns = list(F.need(sc[side]))
+            # file-local / same-class helpers the implementation was split into (two levels)
+            frontier = list(fns)
+            for _ in range(2):
+                nxt = []
+                for f_ in frontier:
+                    for n_, b_, rk_, ev_ in f_.calls():
+                        if n_.get("k") == "call" and not n_.get("virt") and \
+                                strip_targs(n_.get("fn") or "") not in (sc["a"], sc["b"]):
+                            for t_ in F.targets(n_):
+                                if "/draco/" in t_.file and t_ not in fns and \
+                                        not any(strip_targs(n_.get("fn") or "").startswith(f) for f in sc["families"]) and \
+                                        (t_.file == f_.file or t_.cls == f_.cls):
+                                    fns.append(t_)
+                                    nxt.append(t_)
+                frontier = nxt
             calls, fops = set(), set()
             for fn in fns:
                 for blk, rk, tree, ev in fn.roots():
